@@ -78,12 +78,30 @@ def run(ctx):
                 fr = frame(c, i, rb(rng.randrange(3, 80))).hex()
                 yield ("c01", {"f": fr, "mode": rng.choice((0, 1, 2, 3)), "pbf": rng.choice((0, 1)), "validate": rng.choice((0, 1))})
         # very long payloads (length field up to ffff)
-        big = [65535, 65534, 40000, 4096, 1000]
-        for n in big if ctx.thorough else big[-2:]:
-            for (c, i) in [(0x01, 0x07), (0x77, 0x01), (0x06, 0x8B), (0x04, 0x02)]:
+        big = [65535, 65534, 40000, 32769, 32768, 32767, 4096, 1000, 258, 257, 256, 255, 254]
+        for n in big if ctx.thorough else [65535, 32768, 32767, 4096, 257, 256, 255]:
+            for (c, i) in [(0x01, 0x07), (0x77, 0x01), (0x06, 0x8B), (0x04, 0x02)] if ctx.thorough or n < 5000 else [(0x77, 0x01), (0x04, 0x02)]:
                 yield ("c01", {"f": frame(c, i, rb(n)).hex(), "mode": 0, "pbf": 1, "validate": 1})
 
     run_batch(ctx, MODULE, CFG, gen(), frames.OBSERVERS, sigfn, negfn)
+
+    # spec -> code: conforming payloads of every definition (TLC layouts), so that the "accepted" side covers every message type
+    from ..drivers import walk
+
+    lays = [l for l in walk.load_layouts(ctx, "MC_Walk_quick.cfg") if l["reachable"]]
+    cfgdb = ctx.defs["cfgdb"]
+
+    def gen_lay():
+        for l in lays:
+            for pat in ("rand", "ones") if not ctx.thorough else ("rand", "ones", "zero", "count", "rand"):
+                P = walk.fill(l, pat, rng, cfgdb)
+                fr = frame(l["cls"], l["id"], P).hex()
+                yield ("c01", {"f": fr, "mode": l["m"], "pbf": 1 if l["pbf"] else 0, "validate": 1})
+                if pat == "rand":
+                    yield ("c01", {"f": fr, "mode": 3 if l["m"] else 0, "pbf": 0 if l["pbf"] else 1, "validate": 0})
+
+    run_batch(ctx, MODULE, CFG, gen_lay(), frames.OBSERVERS, sigfn, negfn)
+    ctx.extra["definition_layout_frames"] = len(lays)
     ctx.exhaustive = False
     ctx.extra["class_id_pairs"] = len(set(known) | set(allpairs))
     ctx.assumptions += ["frames are generated with the harness' own Fletcher implementation; TLC re-derives well-formedness itself",
